@@ -1,3 +1,4 @@
+pub mod conv;
 pub mod gen;
 pub mod guard;
 pub mod model;
